@@ -74,6 +74,23 @@ static void sink_faults(const hist_t* h, const uint8_t* good, size_t len, const 
             mcf_sink_free(&s); mc_count("sink.invocation-faults", 1);
         }
     }
+    /* one-shot failures with a caller that carries on: the j-th invocation of the sink's write fails once, every remaining writer call is still made;
+     * "OK from close implies all bytes reached the sink" must hold whatever the earlier calls reported */
+    for (int buf = 1; buf < 3; buf++) {
+        mcf_sink_t s0; FILE* f0 = mcf_sink_open(&s0, -1, 0, 0, buf); tbl_result r0; tbl_exec(h, f0, NULL, -1, &r0); fclose(f0); long ncalls = s0.calls; mcf_sink_free(&s0);
+        for (long j = 1; j <= ncalls; j++) {
+            mc_desc("%s;sink:buf=%d;fail-once@call=%ld/%ld;caller-continues", fdesc, buf, j, ncalls);
+            mcf_sink_t s; FILE* f = mcf_sink_open(&s, -1, j, 0, buf); s.transient = 1; tbl_result r; tbl_exec(h, f, NULL, -1, &r); fclose(f);
+            /* a call that reported an error may have dropped its batch, so the file need not equal the fault-free one; but what close acknowledges must be a complete Parquet file
+             * (leading and trailing magic, footer, page chain at the recorded offsets, sizes and counts), and equal to the fault-free file when no call reported anything */
+            if (r.closed && r.close_status == CARQUET_OK) {
+                ref_file rf; bool valid = ref_pq_read(&RA, s.data, s.len, &rf, REF_RD_CHECK_TOTALS) == 0; char why[120]; snprintf(why, sizeof why, "%s", valid ? "" : rf.err); ref_arena_free(&RA);
+                bool same = s.len == len && !memcmp(s.data, good, len);
+                if (!valid || (r.status == CARQUET_OK && !same)) { char key[112]; snprintf(key, sizeof key, "sink.close-ok-but-%s.after-%s.%s", valid ? "incomplete" : "not-a-parquet-file", r.status == CARQUET_OK ? "no-reported-error" : "an-earlier-reported-error", buf == 1 ? "unbuffered" : "16-byte-buffer");
+                    mc_fail(key, "%s buf=%d: sink write #%ld of %ld failed once (first non-OK status %d at %s), the caller carried on and close returned OK; the sink holds %zu bytes (complete file: %zu)%s%s", fdesc, buf, j, ncalls, r.status, r.where, s.len, len, valid ? "" : "; the reference reader rejects them: ", why); } }
+            mcf_sink_free(&s); mc_count("sink.one-shot-faults.caller-continues", 1);
+        }
+    }
     /* path-based writer: /dev/full, and every file-size limit */
     { tbl_result r; mc_desc("%s;path:/dev/full", fdesc); tbl_exec(h, NULL, "/dev/full", -1, &r);
       if (r.created && r.status == CARQUET_OK) mc_fail("path.dev-full.all-calls-ok", "%s: every writer call including close returned OK on /dev/full", fdesc); mc_count("path./dev/full", 1); }
